@@ -21,7 +21,7 @@ def overlayPlacerFor (root : Kind) (writable : Bool) : PlKind :=
   else match root with
     | .file => .copy
     | .dir => .overlayRw
-    | _ => .bindRw        -- symlink, fifo, socket, device: bind placer with writable = true
+    | _ => .bindRo        -- symlink, fifo, socket, device: bind placer, read-only since `fix:` a0ae968 (was writable)
 
 /-- `cache.place`: placement mode → placer (mount mode asks for a writable placement) -/
 def cachePlaceFor (mode : Mode) (root : Kind) : Option PlKind :=
